@@ -27,6 +27,7 @@ import time
 
 from . import core
 
+OWN_REPLAY = True
 LEVEL = "translation_validation"
 
 TOOLS = os.path.join(core.VERIF, "tools")
